@@ -513,6 +513,24 @@ class CFG:
             return False
         return not nx.has_path(h, ENTRY, node)
 
+    def conds_true_at(self, node: int) -> List[ast.AST]:
+        """Atomic conditions known to hold whenever `node` executes: the conjuncts of every branch test whose true edge every path to `node`
+        traverses (`if a and b:` contributes a and b), and the negated disjuncts of every test whose false edge does (`if a or b: ... else:`
+        contributes not a, not b).  Negations are returned in the normal form (`x is not y`, `not c`)."""
+        from .normal import _negate, _clone
+        out: List[ast.AST] = []
+        for t, st in self.stmt.items():
+            if self.label.get(t) not in ("If", "While") or not isinstance(st, ast.expr):
+                continue
+            if self.edge_dominates(t, "true", node):
+                vals = st.values if isinstance(st, ast.BoolOp) and isinstance(st.op, ast.And) else [st]
+                out.extend(vals)
+            elif self.edge_dominates(t, "false", node):
+                vals = st.values if isinstance(st, ast.BoolOp) and isinstance(st.op, ast.Or) else [st]
+                import copy as _copy
+                out.extend(_negate(_clone(v)) for v in vals)
+        return out
+
     def on_true_branch(self, branch: int, node: int) -> bool:
         """node reachable from branch only via its 'true' edge(s) (and not via 'false')."""
         t = set()
@@ -584,3 +602,43 @@ def reaching_defs(cfg: "CFG", name: str, node: int):
             continue
         stack.extend(cfg.g.predecessors(n))
     return sorted(out)
+
+
+def _node_reads(stmt: ast.AST, name: str) -> bool:
+    """does the CFG node's own part of the statement (header only for compound statements) read local `name`?"""
+    if isinstance(stmt, (ast.For, ast.AsyncFor)):
+        parts = [stmt.iter]
+    elif isinstance(stmt, (ast.With, ast.AsyncWith)):
+        parts = [it.context_expr for it in stmt.items]
+    elif isinstance(stmt, (ast.FunctionDef, ast.AsyncFunctionDef, ast.ClassDef)):
+        parts = [stmt]  # a nested scope may capture the name
+    elif isinstance(stmt, ast.ExceptHandler):
+        parts = [stmt.type] if stmt.type is not None else []
+    else:
+        parts = [stmt]
+    for p in parts:
+        for n in ast.walk(p):
+            if isinstance(n, ast.Name) and n.id == name and isinstance(n.ctx, (ast.Load, ast.Del)):
+                return True
+            if isinstance(n, ast.AugAssign) and isinstance(n.target, ast.Name) and n.target.id == name:
+                return True
+    return False
+
+
+def dead_after(cfg: "CFG", node: int, name: str) -> bool:
+    """local `name` is not live on exit from CFG node `node`: on every path leaving it, `name` is re-bound (or the function ends) before it is read"""
+    seen = set()
+    stack = [b for b in cfg.g.successors(node)]
+    while stack:
+        n = stack.pop()
+        if n in seen or n in (EXIT, RAISE):
+            continue
+        seen.add(n)
+        st = cfg.stmt.get(n)
+        if st is not None:
+            if _node_reads(st, name):
+                return False
+            if stmt_defines(st, name):
+                continue
+        stack.extend(cfg.g.successors(n))
+    return True
